@@ -222,7 +222,9 @@ func mxPool(full bool) []mxKind {
 		{"fun-macro", mxGlobal("defun")},
 		{"fun-op", mxGlobal("if")},
 		{"fun-map", mxGlobal("map")},
-		{"tagged-list", func(env *lisp.LEnv) *lisp.LVal { return env.TaggedValue(lisp.Symbol("mx-type"), lisp.QExpr(ints(1, 2))) }},
+		{"tagged-list", func(env *lisp.LEnv) *lisp.LVal {
+			return env.TaggedValue(lisp.Symbol("mx-type"), lisp.QExpr(ints(1, 2)))
+		}},
 	}
 	return append(small, extra...)
 }
@@ -380,6 +382,7 @@ func init() {
 				Shards  int         `json:"shards"`
 				Pool    string      `json:"pool"`
 				Triples int         `json:"triples"` // 0: full cross product at arity >= 3, else that many sampled tuples
+				Quads   int         `json:"quads"`   // small pool in every position at arity >= 3: 0 = full cross product, else samples
 				Seed    int64       `json:"seed"`
 				Only    []string    `json:"only"`
 				Verbose bool        `json:"verbose"`
@@ -401,6 +404,7 @@ func init() {
 				only[n] = true
 			}
 			pool := mxPool(in.Pool != "small")
+			smallPool := mxPool(false)
 			rnd := rand.New(rand.NewSource(in.Seed))
 			for ci, c := range callables {
 				if ci%in.Shards != in.Shard || (len(only) > 0 && !only[c.qname]) {
@@ -422,79 +426,90 @@ func init() {
 							fmt.Fprintln(os.Stderr, err)
 							os.Exit(2)
 						}
-						vary := n
-						if vary > 3 {
-							vary = 3
+						// pass A: the full pool in the first three positions (later positions repeat them);
+						// pass B (arity >= 3): the small pool in EVERY position, so that a type specifier, a
+						// sequence, a start and an end can all be right at once
+						type pass struct {
+							pool    []mxKind
+							vary    int
+							samples int
 						}
-						total := 1
-						for i := 0; i < vary; i++ {
-							total *= len(pool)
+						passes := []pass{{pool, min(n, 3), in.Triples}}
+						if n >= 3 {
+							passes = append(passes, pass{smallPool, n, in.Quads})
 						}
-						sampled := vary >= 3 && in.Triples > 0 && in.Triples < total
-						count := total
-						if sampled {
-							count = in.Triples
-						}
-						idx := make([]int, vary)
-						for t := 0; t < count; t++ {
+						for _, ps := range passes {
+							pool, vary := ps.pool, ps.vary
+							total := 1
+							for i := 0; i < vary; i++ {
+								total *= len(pool)
+							}
+							sampled := vary >= 3 && ps.samples > 0 && ps.samples < total
+							count := total
 							if sampled {
-								for i := range idx {
-									idx[i] = rnd.Intn(len(pool))
-								}
-							} else {
-								x := t
-								for i := vary - 1; i >= 0; i-- {
-									idx[i] = x % len(pool)
-									x /= len(pool)
-								}
+								count = ps.samples
 							}
-							cells := make([]*lisp.LVal, 0, n+1)
-							cells = append(cells, lisp.Symbol(c.qname))
-							names := make([]string, n)
-							for i := 0; i < n; i++ {
-								k := pool[idx[i%max(vary, 1)]]
-								names[i] = k.name
-								v := k.mk(env)
-								// a quoted list already evaluates to the list; wrapping it again would hand the
-								// callee a quote object instead
-								if mode == "quoted" && !(v.Type == lisp.LSExpr && v.IsQuoted()) {
-									v = lisp.Quote(v)
-								}
-								cells = append(cells, v)
-							}
-							desc := fmt.Sprintf("(%s %s) [%s]", c.qname, strings.Join(names, " "), mode)
-							if in.Verbose {
-								fmt.Fprintln(os.Stderr, desc)
-							}
-							mxNow.Store(&mxCurrent{desc, time.Now()})
-							res, escaped := mxEval(env, lisp.SExpr(cells))
-							mxNow.Store(nil)
-							calls++
-							switch {
-							case escaped != "":
-								if len(bad) < 8 {
-									bad = append(bad, J{"mode": mode, "args": names, "what": "escaped", "msg": escaped})
-								}
-							case lisp.IsInternalPanic(res):
-								if len(bad) < 8 {
-									bad = append(bad, J{"mode": mode, "args": names, "what": "internal-panic", "msg": safeStr(res)})
-								}
-							case res.Type == lisp.LError:
-								errors++
-								conds[res.Str]++
-								if in.Verbose || len(msgs) < 12 {
-									m := safeStr(res)
-									if len(m) > 120 {
-										m = m[:120]
+							idx := make([]int, vary)
+							for t := 0; t < count; t++ {
+								if sampled {
+									for i := range idx {
+										idx[i] = rnd.Intn(len(pool))
 									}
-									msgs[m]++
+								} else {
+									x := t
+									for i := vary - 1; i >= 0; i-- {
+										idx[i] = x % len(pool)
+										x /= len(pool)
+									}
 								}
-							default:
-								values++
-							}
-							// a call may have switched package or redefined the prelude: restore what later calls rely on
-							if env.Runtime.Package.Name != lisp.DefaultUserPackage {
-								env.InPackage(lisp.String(lisp.DefaultUserPackage))
+								cells := make([]*lisp.LVal, 0, n+1)
+								cells = append(cells, lisp.Symbol(c.qname))
+								names := make([]string, n)
+								for i := 0; i < n; i++ {
+									k := pool[idx[i%max(vary, 1)]]
+									names[i] = k.name
+									v := k.mk(env)
+									// a quoted list already evaluates to the list; wrapping it again would hand the
+									// callee a quote object instead
+									if mode == "quoted" && !(v.Type == lisp.LSExpr && v.IsQuoted()) {
+										v = lisp.Quote(v)
+									}
+									cells = append(cells, v)
+								}
+								desc := fmt.Sprintf("(%s %s) [%s]", c.qname, strings.Join(names, " "), mode)
+								if in.Verbose {
+									fmt.Fprintln(os.Stderr, desc)
+								}
+								mxNow.Store(&mxCurrent{desc, time.Now()})
+								res, escaped := mxEval(env, lisp.SExpr(cells))
+								mxNow.Store(nil)
+								calls++
+								switch {
+								case escaped != "":
+									if len(bad) < 8 {
+										bad = append(bad, J{"mode": mode, "args": names, "what": "escaped", "msg": escaped})
+									}
+								case lisp.IsInternalPanic(res):
+									if len(bad) < 8 {
+										bad = append(bad, J{"mode": mode, "args": names, "what": "internal-panic", "msg": safeStr(res)})
+									}
+								case res.Type == lisp.LError:
+									errors++
+									conds[res.Str]++
+									if in.Verbose || len(msgs) < 12 {
+										m := safeStr(res)
+										if len(m) > 120 {
+											m = m[:120]
+										}
+										msgs[m]++
+									}
+								default:
+									values++
+								}
+								// a call may have switched package or redefined the prelude: restore what later calls rely on
+								if env.Runtime.Package.Name != lisp.DefaultUserPackage {
+									env.InPackage(lisp.String(lisp.DefaultUserPackage))
+								}
 							}
 						}
 					}
